@@ -126,7 +126,7 @@ func ints(xs []int) lib.Out {
 }
 
 func fsck(dir string) []string {
-	cmd := exec.Command("git", "--git-dir", dir, "fsck", "--no-dangling", "--no-progress", "--connectivity-only")
+	cmd := exec.Command("git", "--git-dir", dir, "fsck", "--strict", "--no-dangling", "--no-progress")
 	cmd.Env = append(os.Environ(), "GIT_CONFIG_NOSYSTEM=1", "HOME=/nonexistent", "LC_ALL=C")
 	out, _ := cmd.CombinedOutput()
 	var lines []string
@@ -151,6 +151,28 @@ func class(err error) string {
 	}
 }
 
+func packNames(dir string) []string {
+	m, _ := filepath.Glob(filepath.Join(dir, "objects", "pack", "pack-*.pack"))
+	var r []string
+	for _, p := range m {
+		r = append(r, filepath.Base(p))
+	}
+	sort.Strings(r)
+	return r
+}
+
+// rounds of the case: either the explicit history or the single operation of the old schema
+func rounds(c lib.Case) []lib.Case {
+	var rs []lib.Case
+	for _, x := range c.L("rounds") {
+		rs = append(rs, lib.AsCase(x))
+	}
+	if len(rs) == 0 {
+		rs = append(rs, lib.Case{"op": c.S("op"), "threshold": c.Bool("threshold"), "refdeltas": c.Bool("refdeltas")})
+	}
+	return rs
+}
+
 func run(c lib.Case) (lib.Out, any) {
 	dir, err := os.MkdirTemp("", "vc22-")
 	must(err)
@@ -160,53 +182,93 @@ func run(c lib.Case) (lib.Out, any) {
 		fmt.Fprintln(os.Stderr, "kept", dir)
 	}
 	objs, _ := b11repo.Build(dir, c)
+	if _, ok := c["window"]; ok {
+		st := openStorage(dir, false)
+		cfg, err := st.Config()
+		must(err)
+		cfg.Pack.Window = uint(c.I("window"))
+		must(st.SetConfig(cfg))
+		st.Close()
+	}
 
-	before := snap(dir, objs)
 	var fsckBefore []string
 	if c.Bool("fsck") {
 		fsckBefore = fsck(dir)
 	}
-
-	// the operation, on a freshly opened repository
-	st2 := openStorage(dir, c.Bool("exclusive"))
-	repo, err := git.Open(st2, nil)
-	must(err)
-	var opErr error
-	switch c.S("op") {
-	case "prune":
-		opt := git.PruneOptions{Handler: repo.DeleteObject}
-		if c.Bool("threshold") {
-			opt.OnlyObjectsOlderThan = b11repo.Threshold
-		}
-		opErr = repo.Prune(opt)
-	case "repack":
-		cfg := &git.RepackConfig{UseRefDeltas: c.Bool("refdeltas")}
-		if c.Bool("threshold") {
-			cfg.OnlyDeletePacksOlderThan = b11repo.Threshold
-		}
-		opErr = repo.RepackObjects(cfg)
-	default:
-		panic("op")
+	var outs []lib.Out
+	var rex []map[string]any
+	var idxExtra []any
+	for _, x := range c.L("index") {
+		idxExtra = append(idxExtra, x)
 	}
-	st2.Close()
-
-	after := snap(dir, objs)
-	extra := map[string]any{"before": before.digest, "after": after.digest,
-		"loose_before": before.loose, "packed_before": before.packed, "loose_after": after.loose, "packed_after": after.packed}
+	for _, r := range rounds(c) {
+		switch r.S("op") {
+		case "add":
+			st := openStorage(dir, false)
+			_, err := st.SetEncodedObject(objs[r.I("obj")].Mem())
+			must(err)
+			st.Close()
+			continue
+		case "stage":
+			st := openStorage(dir, false)
+			idxExtra = append(idxExtra, map[string]any{"path": r.S("path"), "ref": r["obj"], "mode": "100644"})
+			must(st.SetIndex(b11repo.Index(objs, idxExtra)))
+			st.Close()
+			continue
+		}
+		before := snap(dir, objs)
+		packsBefore := packNames(dir)
+		var roundFsckBefore []string
+		if c.Bool("fsck") {
+			roundFsckBefore = fsck(dir)
+		}
+		// the operation, on a freshly opened repository
+		st2 := openStorage(dir, c.Bool("exclusive"))
+		repo, err := git.Open(st2, nil)
+		must(err)
+		var opErr error
+		switch r.S("op") {
+		case "prune":
+			opt := git.PruneOptions{Handler: repo.DeleteObject}
+			if r.Bool("threshold") {
+				opt.OnlyObjectsOlderThan = b11repo.Threshold
+			}
+			opErr = repo.Prune(opt)
+		case "repack":
+			cfg := &git.RepackConfig{UseRefDeltas: r.Bool("refdeltas")}
+			if r.Bool("threshold") {
+				cfg.OnlyDeletePacksOlderThan = b11repo.Threshold
+			}
+			opErr = repo.RepackObjects(cfg)
+		default:
+			panic("op")
+		}
+		st2.Close()
+		after := snap(dir, objs)
+		ex := map[string]any{"op": r.S("op"), "before": before.digest, "after": after.digest,
+			"loose_after": after.loose, "packed_after": after.packed, "packs_before": packsBefore, "packs_after": packNames(dir)}
+		if c.Bool("fsck") {
+			ex["fsck_before"] = roundFsckBefore
+			ex["fsck_after"] = fsck(dir)
+		}
+		if opErr != nil {
+			ex["error"] = opErr.Error()
+			outs = append(outs, lib.Err(class(opErr)))
+		} else {
+			outs = append(outs, lib.Ok(ints(after.loose), ints(after.packed)))
+		}
+		rex = append(rex, ex)
+	}
+	extra := map[string]any{"rounds": rex}
 	if c.Bool("fsck") {
 		extra["fsck_before"] = fsckBefore
-		extra["fsck_after"] = fsck(dir)
 	}
 	hs := map[string]string{}
 	for i, d := range objs {
 		hs[strconv.Itoa(i)] = d.Hash.String()
 	}
 	extra["hashes"] = hs
-	if opErr != nil {
-		extra["error"] = opErr.Error()
-		return lib.Err(class(opErr)), extra
-	}
-	return lib.Ok(ints(after.loose), ints(after.packed)), extra
+	return lib.List(outs...), extra
 }
 
-func main() { lib.Main(run) }
+func main() { b11repo.ParallelMain(run) }
